@@ -37,20 +37,20 @@ def confirm(ID, n):
     kind, files = patch_kind(ID, n)
     sh('git checkout -q -- .', cwd=W)
     res = dict(kind=kind, files=files)
-    rc, out = sh('/venv/bin/python %s/demo%s.py' % (O, n), cwd=W, timeout=3000)
+    rc, out = sh('/venv/bin/python %s/demo%s.py' % (O, n), cwd=W, env=dict(PYTHONPATH=W), timeout=3000)
     res['demo_clean_rc'] = rc
     rc, out = sh('git apply %s/patch%s.diff' % (O, n), cwd=W)
     if rc != 0:
         res['apply_failed'] = out[-300:]
         return res
-    rc, out = sh('/venv/bin/python %s/demo%s.py' % (O, n), cwd=W, timeout=3000)
+    rc, out = sh('/venv/bin/python %s/demo%s.py' % (O, n), cwd=W, env=dict(PYTHONPATH=W), timeout=3000)
     res['demo_patched_rc'] = rc
     res['demo_patched_tail'] = out[-400:]
     if kind == 'py':
-        rc, out = sh('/venv/bin/python -m pytest -q -p no:cacheprovider --timeout=900 --continue-on-collection-errors 2>&1 | tail -3', cwd=W, timeout=3000)
+        rc, out = sh('/venv/bin/python -m pytest -q -p no:cacheprovider --timeout=900 --continue-on-collection-errors 2>&1 | tail -3', cwd=W, env=dict(PYTHONPATH=W), timeout=3000)
         res['suite'] = out.strip().split('\n')[-1]
     else:
-        rc, out = sh('/venv/bin/python -c "import compmech.panel, compmech.conecyl"', cwd=W)
+        rc, out = sh('/venv/bin/python -c "import compmech.panel, compmech.conecyl"', cwd=W, env=dict(PYTHONPATH=W))
         res['suite'] = 'source-only change: the pre-built binaries (hence the 34 tests) are unaffected; package imports rc=%d' % rc
     sh('git checkout -q -- .', cwd=W)
     json.dump(res, open('%s/confirm%s.json' % (O, n), 'w'), indent=1)
